@@ -1,6 +1,7 @@
 import Tv.Lemmas.C16CalDoe
 import Mathlib.Tactic.SplitIfs
 import Mathlib.Tactic.Set
+import Mathlib.Tactic.IntervalCases
 /-!
   Round trip of the calendar functions of the C16 / C17 specification: the date computed from a
   day count maps back to that day count, for every integer day count (no range restriction).
@@ -96,5 +97,108 @@ theorem civilFromDays_range (z : Int) :
   have m0 : 0 ≤ mp := by omega
   have m1 : mp ≤ 11 := by omega
   split_ifs <;> omega
+
+/-! ## the other direction: dates to day counts and back -/
+
+/-- Gregorian leap year -/
+def isLeapYear (y : Int) : Prop := (y % 4 = 0 ∧ y % 100 ≠ 0) ∨ y % 400 = 0
+instance (y : Int) : Decidable (isLeapYear y) := by unfold isLeapYear; infer_instance
+
+/-- days in month `m` of year `y` -/
+def daysInMonth (y m : Int) : Int :=
+  if m = 2 then (if isLeapYear y then 29 else 28)
+  else if m = 4 ∨ m = 6 ∨ m = 9 ∨ m = 11 then 30 else 31
+
+/-- a calendar date -/
+def ValidDate (y m d : Int) : Prop := 1 ≤ m ∧ m ≤ 12 ∧ 1 ≤ d ∧ d ≤ daysInMonth y m
+
+/-- year-of-era start day: strictly increasing -/
+theorem yoeStart_lt (a b : Int) (h0 : 0 ≤ a) (h : a < b) :
+    (a + 1) * 365 + (a + 1) / 4 - (a + 1) / 100 ≤ b * 365 + b / 4 - b / 100 := by
+  omega
+
+/-- the shifted month and day-of-year of a calendar date, and the range of the day-of-year -/
+theorem doy_bounds (y m d : Int) (hv : ValidDate y m d) :
+    let mp0 := if m > 2 then m - 3 else m + 9
+    let doy0 := (153 * mp0 + 2) / 5 + d - 1
+    0 ≤ mp0 ∧ mp0 ≤ 11 ∧ 0 ≤ doy0 ∧ (5 * doy0 + 2) / 153 = mp0 ∧
+      (m > 2 → doy0 ≤ 305) ∧ (m ≤ 2 → doy0 ≤ 364 ∨ (isLeapYear y ∧ doy0 = 365)) := by
+  obtain ⟨hm1, hm2, hd1, hd2⟩ := hv
+  simp only [daysInMonth] at hd2
+  interval_cases m <;> simp at hd2 ⊢ <;> (try split at hd2) <;> (try simp_all) <;> omega
+
+/-- the number of days before year-of-era `a + 1` exceeds that before `a` by 365 or 366 -/
+theorem yoeStart_step (a : Int) :
+    (a + 1) * 365 + (a + 1) / 4 - (a + 1) / 100 - (a * 365 + a / 4 - a / 100) = 365 +
+      (if (a + 1) % 4 = 0 then 1 else 0) - (if (a + 1) % 100 = 0 then 1 else 0) := by
+  split_ifs <;> omega
+
+/-- **calendar round trip, other direction**: the day count of a calendar date maps back to that date -/
+theorem civilFromDays_daysFromCivil (y m d : Int) (hv : ValidDate y m d) :
+    civilFromDays (daysFromCivil y m d) = (y, m, d) := by
+  have hb := doy_bounds y m d hv
+  obtain ⟨hm1, hm2, hd1, hd2⟩ := hv
+  obtain ⟨era, yn, doy, mp, h0, h1, d0, d1, hnext, hmp, hz, hc⟩ := civilFromDays_parts (daysFromCivil y m d)
+  rw [hc]
+  simp only [daysFromCivil] at hz hb
+  -- name the parts of `daysFromCivil y m d`
+  set y' := (if m ≤ 2 then y - 1 else y) with hy'
+  set era0 := y' / 400 with hera0
+  set yoe0 := y' - era0 * 400 with hyoe0
+  set mp0 := (if m > 2 then m - 3 else m + 9) with hmp0
+  set doy0 := (153 * mp0 + 2) / 5 + d - 1 with hdoy0
+  obtain ⟨b0, b1, b2, b3, b4, b5⟩ := hb
+  have y0 : 0 ≤ yoe0 := by omega
+  have y1 : yoe0 ≤ 399 := by omega
+  -- both day-of-era values lie in the era
+  have e1 : 0 ≤ yn * 365 + yn / 4 - yn / 100 + doy ∧ yn * 365 + yn / 4 - yn / 100 + doy ≤ 146096 := by omega
+  have e2 : 0 ≤ yoe0 * 365 + yoe0 / 4 - yoe0 / 100 + doy0 ∧ yoe0 * 365 + yoe0 / 4 - yoe0 / 100 + doy0 ≤ 146096 := by
+    rcases Int.lt_or_le 2 m with hm | hm
+    · have := b4 hm; omega
+    · rcases b5 hm with h | ⟨_, h⟩ <;> omega
+  have hera : era = era0 := by omega
+  have hdoe : yn * 365 + yn / 4 - yn / 100 + doy = yoe0 * 365 + yoe0 / 4 - yoe0 / 100 + doy0 := by omega
+  -- the year-of-era is determined by the day-of-era
+  have hyn : yn = yoe0 := by
+    rcases Int.lt_trichotomy yn yoe0 with hlt | heq | hgt
+    · have := yoeStart_lt yn yoe0 h0 hlt
+      rcases hnext with hn | hn <;> omega
+    · exact heq
+    · exfalso
+      have hs := yoeStart_lt yoe0 yn y0 hgt
+      have hstep := yoeStart_step yoe0
+      rcases Int.lt_or_le 2 m with hm | hm
+      · have := b4 hm
+        split_ifs at hstep <;> omega
+      · rcases b5 hm with h | ⟨hl, h⟩
+        · split_ifs at hstep <;> omega
+        · have hy'' : y' = y - 1 := by simp only [hy']; split_ifs <;> omega
+          unfold isLeapYear at hl
+          split_ifs at hstep <;> omega
+  subst hyn
+  have hdoy : doy = doy0 := by omega
+  have hmp' : mp = mp0 := by rw [hmp, hdoy]; exact b3
+  rw [hmp', hdoy, hera]
+  have hy'' : y' = if m ≤ 2 then y - 1 else y := hy'
+  rcases Int.lt_or_le 2 m with hm | hm
+  · have c1 : ¬ m ≤ 2 := by omega
+    have c2 : m > 2 := hm
+    simp only [hmp0, c2, if_true] at b0 b1 ⊢
+    simp only [c1, if_false] at hy''
+    by_cases c3 : m - 3 < 10
+    · have c4 : ¬ (m - 3 + 3 ≤ 2) := by omega
+      simp only [c3, if_true, c4, if_false, Prod.mk.injEq]
+      refine ⟨by omega, by omega, ?_⟩
+      simp only [hdoy0, hmp0, c2, if_true]; omega
+    · omega
+  · have c1 : m ≤ 2 := hm
+    have c2 : ¬ m > 2 := by omega
+    simp only [hmp0, c2, if_false] at b0 b1 ⊢
+    simp only [c1, if_true] at hy''
+    have c3 : ¬ (m + 9 < 10) := by omega
+    have c4 : m + 9 - 9 ≤ 2 := by omega
+    simp only [c3, if_false, c4, if_true, Prod.mk.injEq]
+    refine ⟨by omega, by omega, ?_⟩
+    simp only [hdoy0, hmp0, c2, if_false]; omega
 
 end Tv.C16.Spec
